@@ -1007,7 +1007,10 @@ impl Template {
                                 let mut d = decorator_stack.pop_front().unwrap();
                                 let close_tag_name = exp.name.as_name();
                                 if d.name.as_name() == close_tag_name {
-                                    let prev_t = template_stack.pop_front().unwrap();
+                                    let mut prev_t = template_stack.pop_front().unwrap();
+                                    // the body is rendered from other templates: it
+                                    // remembers where it was written
+                                    prev_t.name.clone_from(&options.name);
                                     d.template = Some(prev_t);
                                     let t = template_stack.front_mut().unwrap();
                                     if rule == Rule::decorator_block_end {
